@@ -333,12 +333,34 @@ def handleOrient (inp out : List String) : String :=
   | some _, some _ => "ERR orient-type"
   | _, _ => "ERR parse"
 
+/-- `C05.triwo <a> <b> <c> => none|Clockwise|CounterClockwise`: `triangle_winding_order` against the exact sign of
+`(b - a) × (c - a)` (twice the signed area of the triangle ring). -/
+def handleTriWo (inp out : List String) : String :=
+  let pin : P (Pt × Pt × Pt) := do let a ← pt; let b ← pt; let c ← pt; pure (a, b, c)
+  match P.run pin inp, out with
+  | some (a, b, c), [w] =>
+    let cr := (b.x - a.x) * (c.y - a.y) - (b.y - a.y) * (c.x - a.x)
+    let m := if cr > 0 then "CounterClockwise" else if cr < 0 then "Clockwise" else "none"
+    let prop :=
+      if w == m then "PASS"
+      else if cr == 0 then "FAIL:triangle-winding-of-flat-triangle"
+      else if w == "none" then "FAIL:triangle-winding-none-for-triangle-with-area"
+      else "FAIL:triangle-winding-wrong-sign"
+    -- K10: `robust::orient2d` is exact only in the absence of underflow / overflow of the coordinate products
+    let uf := [a, b, c].any (fun p => (p.x != 0 && rabs p.x < pow2 (-400)) || (p.y != 0 && rabs p.y < pow2 (-400)) ||
+      rabs p.x > pow2 400 || rabs p.y > pow2 400)
+    let cls := "op=triwo " ++ (if cr == 0 then "flat" else "area") ++ " " ++ regimeOf [a, b, c] ++
+      (if uf then " underflow-range" else "")
+    reply (w == m) prop cls m w
+  | _, _ => "ERR parse"
+
 def handle (op : String) (inp out : List String) : Option String :=
   if op.startsWith "C05." && out == ["panic"] then some (reply false "FAIL:panic" "" "no-panic" "panic") else
   match op with
   | "C05.area" => some (handleArea inp out)
   | "C05.wind" => some (handleWind inp out)
   | "C05.orient" => some (handleOrient inp out)
+  | "C05.triwo" => some (handleTriWo inp out)
   | _ => none
 
 end Geo.Ops.C05
